@@ -9,6 +9,15 @@ NOTE = ("Trusted base: clang 14 front end + clang::CFG, tools/xzfacts.cc, sa/*.p
         "of the property is NOT decided (see DESIGN.md section 4).")
 
 CLAIMED = {
+ "C11": dict(
+  text="The transition relation of lzma_code() is extracted by exhaustive finite-domain abstract evaluation of its CFG "
+       "(8820 abstract cases: internal sequence x action incl. out-of-range x supported flag x avail_in changed x "
+       "allow_buf_error x every lzma_ret the coder can return x progress) and equals the protocol transcribed from base.h "
+       "(PROG_ERROR rules, sticky STREAM_END, BUF_ERROR only on the second no-progress call, non-fatal set, fatal -> ISEQ_ERROR); "
+       "next/avail/total updates are structurally tied to the positions passed to the coder; per-initialiser action sets equal "
+       "the documented ones. Does NOT decide that no memory outside the buffers is touched.",
+  technique="exhaustive finite-domain abstract interpretation of the wrapper's CFG vs a protocol table; structural def-use rules",
+  ref="4/C11"),
  "C16": dict(
   text="Finite-domain abstract evaluation of the .lz dictionary-size byte (256 values, exhaustive) and of the auto "
        "decoder's first-byte dispatch (256 values) against spec tables; .lz magic/versions/lc-lp-pb/footer sizes; effect rule "
